@@ -24,7 +24,7 @@ def random_case(prop, rng, tier):
              'milestone': rng.random() < 0.15, 'custom': {}}
         for k in ('prio', 'note', 'flag', 'x y'):
             if rng.random() < 0.3:
-                t['custom'][k] = rng.choice([1, 2.5, True, None, 'txt'] + STRS[:8])
+                t['custom'][k] = rng.choice([1, 2.5, True, None, 'txt', 0, 0.0, False, 0] + STRS[:8])
         tasks.append(t)
     links = [[rng.randrange(n), rng.randrange(n)] for _ in range(rng.randrange(0, n + 2))]
     return {'tasks': tasks, 'links': links, 'hand': rng.choice([None, 'bom', 'perm', 'bom+perm', 'nomin', 'bom+perm+nomin'])}
@@ -224,7 +224,7 @@ def mutate(prop, case, rng):
 
 
 def count(prop, tier):
-    return 500 if tier == 'quick' else 20000
+    return 1500 if tier == 'quick' else 20000
 
 
 def projection(prop):
